@@ -114,6 +114,11 @@ def notWrap : Ex → Bool
   | .raw t false _ _ => detector t
   | _ => false
 
+/-- joiner `buildExprs` writes before a non-first member -/
+def memberJoin (jc : Joiner) (e : Ex) : Joiner := if e.isSingleOr then .or else jc
+/-- joiner inside `NOT ( … )` (`case OrConditions:` — any Or, not only single-member ones) -/
+def notJoin (e : Ex) : Joiner := if e.isOr then .or else .and
+
 mutual
 /-- `expr.Build(builder)` -/
 def Ex.build : Ex → Flat
@@ -134,7 +139,7 @@ def Ex.build : Ex → Flat
 def buildList (multi : Bool) (first : Bool) (jc : Joiner) : List Ex → Flat
   | [] => []
   | e :: r =>
-    let j := if first then Joiner.and else if e.isSingleOr then Joiner.or else jc
+    let j := if first then Joiner.and else memberJoin jc e
     (if multi && wrapTest e then [(j, 0, .paren e.build)] else setJoin j e.build) ++ buildList multi false jc r
 /-- `NotConditions.Build`, branch "some member has NegationBuild": members joined by AND, each negated -/
 def notListA : List Ex → Flat
@@ -146,7 +151,7 @@ def notListA : List Ex → Flat
 def notListB (first : Bool) : List Ex → Flat
   | [] => []
   | e :: r =>
-    let j := if first then Joiner.and else if e.isOr then Joiner.or else Joiner.and
+    let j := if first then Joiner.and else notJoin e
     (if notWrap e then [(j, 0, .paren e.build)] else setJoin j e.build) ++ notListB false r
 end
 
@@ -165,8 +170,7 @@ def Ex.sound : Ex → Bool
   | .and es => soundList (es.length > 1) es
   | .or es => soundList (es.length > 1) es
   | .not es =>
-    if es.any Ex.negatable then soundNotA es
-    else soundNotB (es.length > 1) es
+    !es.isEmpty && (if es.any Ex.negatable then soundNotA es else soundNotB (es.length > 1) es)
 /-- members of a `buildExprs` list: inner lists sound, and a member that is spliced (not wrapped) into a
     list with other operands has no top-level OR -/
 def soundList (multi : Bool) : List Ex → Bool
@@ -175,10 +179,10 @@ def soundList (multi : Bool) : List Ex → Bool
 def soundNotA : List Ex → Bool
   | [] => true
   | (.atom _) :: r => soundNotA r
-  | e :: r => e.sound && (notWrap e || singleItem (expandFlat e.build)) && soundNotA r
+  | e :: r => e.sound && !e.build.isEmpty && (notWrap e || singleItem (expandFlat e.build)) && soundNotA r
 def soundNotB (multi : Bool) : List Ex → Bool
   | [] => true
-  | e :: r => e.sound && (notWrap e || (if multi then noTopOr (expandFlat e.build) else singleItem (expandFlat e.build)))
+  | e :: r => e.sound && !e.build.isEmpty && (notWrap e || (if multi then noTopOr (expandFlat e.build) else singleItem (expandFlat e.build)))
       && soundNotB multi r
 end
 
